@@ -21,7 +21,11 @@ DEFS = ("(defmacro inc (var) (list 'setq var (list '+ 1 var))) "
         "(defmacro swap-args (f a b) (list f b a)) "
         "(defmacro with-tick (n &rest body) `(progn (tick ,n) ,@body)) "
         "(defmacro effect (x) (setq expansions (+ expansions 1)) x) "
-        "(defmacro kw (a &optional (b 5)) a)")
+        "(defmacro kw (a &optional (b 5)) a) "
+        "(defmacro show (form) `(list ',form ,form)) "
+        "(defmacro head-of (form) (list 'quote (if (consp form) (car form) form))) "
+        "(defmacro count-forms (&rest fs) (list 'quote (list (length fs) fs))) "
+        "(defmacro pick (n &rest fs) (nth n fs))")
 
 def atom(rng):
     return rng.choice(["1", "2", "v", "w", "nil", "t", "'q", '"s"', "(tick 5)", "(+ v 1)", "(list v w)", "s", "(list s v)"])
@@ -29,7 +33,7 @@ def atom(rng):
 def form(rng, d):
     if d <= 0: return atom(rng)
     k = rng.choice(["inc", "my-if", "my-progn", "twice", "inc2", "swap-args", "with-tick", "effect", "when", "unless",
-                    "if-let", "if-let*", "when-let", "while-let", "->", "->>", "thread-first", "thread-last", "plain", "plain",
+                    "if-let", "if-let*", "when-let", "while-let", "->", "->>", "thread-first", "thread-last", "plain", "plain", "show", "head-of", "count-forms", "pick",
                     "let", "defun-call", "quote", "dotted", "lambda"])
     f = lambda: form(rng, d - 1)
     if k == "inc": return "(inc %s)" % rng.choice(["v", "w"])
@@ -37,6 +41,10 @@ def form(rng, d):
     if k == "my-if": return "(my-if %s %s%s)" % (f(), f(), rng.choice(["", " " + f()]))
     if k == "my-progn": return "(my-progn %s)" % " ".join(f() for _ in range(rng.randint(0, 3)))
     if k == "twice": return "(twice %s)" % f()
+    if k == "show": return "(show %s)" % f()
+    if k == "head-of": return "(head-of %s)" % f()
+    if k == "count-forms": return "(count-forms %s)" % " ".join(f() for _ in range(rng.randint(0, 3)))
+    if k == "pick": return "(pick %d %s %s)" % (rng.randint(0, 1), f(), f())
     if k == "swap-args": return "(swap-args list %s %s)" % (f(), f())
     if k == "with-tick": return "(with-tick %d %s)" % (rng.randint(1, 9), " ".join(f() for _ in range(rng.randint(0, 2))))
     if k == "effect": return "(effect %s)" % f()
